@@ -74,7 +74,7 @@ class C12(tk.TableProp):
     def generate(self, rng, i, tier):
         return self._gen(rng, tier)
 
-    def _gen(self, rng, tier, n0=None):
+    def _gen(self, rng, tier, n0=None, late=None):
         big = tier == "thorough"
         cols = rng.sample(POOL, rng.randint(2, 5))
         if not any("tracked" in c for c, _ in cols) and rng.random() < 0.7:
@@ -82,17 +82,24 @@ class C12(tk.TableProp):
         if not any(d in ("int", "flt") for _, d in cols):
             cols[-1] = ("a", "int")
         n0 = rng.choice([0, 1, 2, 3, 4, 5, 6, 8, 12] + ([25] if big else [])) if n0 is None else n0
-        g = Gen(rng, cols, n0)
+        # a second component whose initializer runs AFTER pop's and adds one more column: reads made inside pop's
+        # initializer see a table that does not have it yet
+        late = ("late_c", rng.choice(["int", "flt", "str", "bool"])) if (rng.random() < 0.4 if late is None else late) else None
+        g = Gen(rng, cols + ([late] if late else []), n0)
         names = [c for c, _ in cols]
+        allnames = names + (["late_c"] if late else [])
         views = [{"id": 1, "cols": names, "q": ["T"]}]
         g.views[0], g.views[1] = ["tracked"], names
+        if late:
+            g.views[100] = ["late_c"]
         qcols = cols + [("tracked", "bool")]
-        for _ in range(rng.randint(3, 7)):
+        nviews = rng.randint(3, 7)
+        for k in range(nviews):
             r = rng.random()
-            if r < 0.12:
-                vc = []
+            if r < 0.12 or (k == 0 and rng.random() < 0.5):
+                vc = []                                           # a view over the whole table
             else:
-                vc = rng.sample(names, rng.randint(1, len(names)))
+                vc = rng.sample(allnames, rng.randint(1, len(allnames)))
                 if rng.random() < 0.25:
                     vc.insert(rng.randint(0, len(vc)), "tracked")
                 if rng.random() < 0.08:
@@ -111,7 +118,29 @@ class C12(tk.TableProp):
             views.append({"id": g.next_id, "cols": vc, "q": q})
             g.views[g.next_id] = vc
             g.next_id += 1
-        init = {"pop": g.fill(list(range(n0)))}
+        # reads at different moments of the initial creation: before pop has written anything (only `tracked` exists),
+        # after pop's columns exist but before the later component's, and inside the later component's initializer
+        whole = [v["id"] for v in views if not v["cols"]]
+
+        def early_reads(p):
+            out = []
+            while rng.random() < p:
+                vid = rng.choice(whole) if whole and rng.random() < 0.7 else rng.choice(list(g.views))
+                out.append(self._read(rng, g, vid, cols))
+                p *= 0.5
+            return out
+
+        labels0 = list(range(n0))
+        init = {"pop": early_reads(0.5) + g.fill(labels0, view=1, cols=names) + early_reads(0.5)}
+        if late:
+            init["late"] = early_reads(0.2) + g.fill(labels0, view=100, cols=["late_c"]) + early_reads(0.2)
+
+        def fills(labels):
+            f = {"pop": early_reads(0.15) + g.fill(labels, view=1, cols=names)}
+            if late:
+                f["late"] = g.fill(labels, view=100, cols=["late_c"]) + early_reads(0.15)
+            return f
+
         ops = []
         if n0:
             rows = rng.sample(range(n0), rng.randint(0, max(1, n0 // 2)))
@@ -145,14 +174,26 @@ class C12(tk.TableProp):
                 g.next_id += 1
             elif r < 0.96:
                 k = rng.choice([0, 1, 2])
-                ops.append({"a": "create", "k": k, "comp": "pop", "fills": {"pop": g.fill(list(range(g.n, g.n + k)))}})
+                ops.append({"a": "create", "k": k, "comp": "pop", "fills": fills(list(range(g.n, g.n + k)))})
                 g.n += k
             else:
                 spec = g.bad_update(vid, rng.choice(["foreign", "unknownrow", "dtype", "unnamed"]))
                 if spec:
                     ops.append(spec)
-        return {"comps": [{"name": "pop", "cols": [list(c) for c in cols], "views": views}], "pop": n0, "init": init,
-                "steps": 0, "ops": ops, "seeds": [1, 2]}
+        comps = [{"name": "pop", "cols": [list(c) for c in cols], "views": views}]
+        if late:
+            comps.append({"name": "late", "cols": [list(late)], "views": [{"id": 100, "cols": ["late_c"], "q": ["T"]}],
+                          "requires": [names[0]]})
+        # some histories go through one real time step first: reads from listeners, then the ops in `collect_metrics`
+        steps, hooks = 0, {}
+        if rng.random() < 0.3:
+            steps = 1
+            for ph in rng.sample(tk.PHASES, rng.randint(1, 3)):
+                g_n, g.n = g.n, n0
+                hooks[f"0:{ph}:pop"] = [self._read(rng, g, rng.choice([v["id"] for v in views] + whole * 2), cols)
+                                        for _ in range(rng.randint(1, 3))]
+                g.n = g_n
+        return {"comps": comps, "pop": n0, "init": init, "steps": steps, "hooks": hooks, "ops": ops, "seeds": [1, 2]}
 
     @staticmethod
     def _read(rng, g, vid, cols):
@@ -197,7 +238,7 @@ class C12(tk.TableProp):
                         known_views[e["id"]] = {"cols": list(e["cols"]), "q": parent["q"], "parent": e["parent"]}
                 if tk.table_diff(prev, e.get("table")):
                     fail("read-changed-table", f"log {i} sub: {tk.table_diff(prev, e.get('table'))}")
-            if e["t"] != "get" or cr is not None:
+            if e["t"] != "get":
                 continue
             t = prev if prev is not None else {"rows": [], "cols": []}
             d = tk.table_diff(t, e["table"] if e["table"] is not None else {"rows": [], "cols": []})
@@ -245,7 +286,8 @@ class C12(tk.TableProp):
                 continue
             gcols = [c[0] for c in got["cols"]]
             if (gcols != vcols) if vd["cols"] else (sorted(gcols) != sorted(vcols)):
-                fail("get-wrong-columns", f"{desc}: returned columns {gcols}, the view has {vcols}")
+                fail("get-wrong-columns" if vd["cols"] else "whole-table-view-columns",
+                     f"{desc}: returned columns {gcols}, " + (f"the view has {vcols}" if vd["cols"] else f"the table currently has {vcols}"))
                 continue
             for name, dt, vals in got["cols"]:
                 tc = tk.col_of(t, name)
@@ -272,6 +314,11 @@ class C12(tk.TableProp):
         for i, e, prev, cr in tk.walk(obs):
             if e["t"] == "get":
                 v = vd.get(e["view"])
+                when = ("step-listener" if e.get("comp") and cr is None else "outside") if cr is None else \
+                       ("initial-creation" if cr.get("before") is None else "birth")
+                t.append("read-when:" + when)
+                if v is not None and not v["cols"]:
+                    t.append("whole-table-read:" + when + f":{len(prev['cols']) if prev else 0}cols")
                 idx = e["idx"]
                 n = len(prev["rows"]) if prev else 0
                 kind = ("empty" if not idx else "unknown" if any(r >= n for r in idx) else "repeated" if len(set(idx)) < len(idx)
